@@ -420,6 +420,31 @@ def check_config(case, acc):
         pass
     if Config()["EVAL_UNSEEN_CATEGORIES"] != "error":
         problems.append("default mode is not 'error'")
+    # other Config objects are separate objects: creating or changing one never reconfigures the library
+    from formulae import design_matrices
+
+    dmc = design_matrices("y ~ f + (1|g)", train())
+    nd_unseen, _ = make_frames({"f": [0], "g": [1]})
+    for mode in MODES:
+        for other_mode in MODES:
+            set_mode(mode)
+            other = Config({"EVAL_UNSEEN_CATEGORIES": other_mode})
+            bare = Config()
+            bare["EVAL_UNSEEN_CATEGORIES"] = other_mode
+            acc.calls += 2
+            if cfg["EVAL_UNSEEN_CATEGORIES"] != mode:
+                problems.append(f"the library's mode was {mode}; after creating Config objects set to {other_mode} it is {cfg['EVAL_UNSEEN_CATEGORIES']}")
+                continue
+            if other["EVAL_UNSEEN_CATEGORIES"] != other_mode or bare.EVAL_UNSEEN_CATEGORIES != other_mode:
+                problems.append(f"a separate Config object set to {other_mode} reads {other['EVAL_UNSEEN_CATEGORIES']} / {bare.EVAL_UNSEEN_CATEGORIES}")
+            for M in (dmc.common, dmc.group):
+                out, exc, ours = run_eval(M, nd_unseen)
+                raised, warned = exc is not None, bool(ours)
+                want = {"error": (True, False), "warning": (False, True), "silent": (False, False)}[mode]
+                if M is dmc.group and mode == "error":
+                    continue  # (unseen groups in 'error' mode are not demanded)
+                if (raised, warned) != want:
+                    problems.append(f"mode {mode} with other Config objects set to {other_mode}: evaluation raised={raised} warned={warned}")
     set_mode("error")
     if problems:
         acc.case(case, "MISMATCH", sample=False)
